@@ -422,10 +422,11 @@ package diff
 //@ ensures (result2 != nil) == ((*sd).BreakingChangeCount() > 0)
 
 //@ func SpecDifferences.ReportAllDiffs
-//@ props C13 C15
+//@ props C07 C13 C15
 //@ modifies nothing
 //@ ensures !fmtJSON ==> result1 == nil && (result2 != nil) == (sd.BreakingChangeCount() > 0)
 //@ ensures @C15 fmtJSON && result1 == nil ==> (result2 != nil) == (sd.BreakingChangeCount() > 0)
+//@ ensures @C07 fmtJSON ==> vs_called("JSONMarshal") && vs_sortedDiffs(vs_callArg[interface{}]("JSONMarshal", 0))
 
 //@ func SpecDifference.String
 //@ props C15
